@@ -275,11 +275,17 @@ var Indicators = []*IndEntity{
 		}
 		return a
 	}},
-	{Name: "momentum.StochasticRsi", Sig: "c", NOut: 1, NCfg: 1, Make: func(c []int) any {
+	{Name: "momentum.StochasticRsi", Sig: "c", NOut: 1, NCfg: 2, Make: func(c []int) any {
 		if c == nil {
 			return momentum.NewStochasticRsi[F]()
 		}
-		return momentum.NewStochasticRsiWithPeriod[F](c[0])
+		a := momentum.NewStochasticRsiWithPeriod[F](c[0])
+		if len(c) > 1 {
+			// StochRSI(14, 9): the stochastic window (its moving minimum and maximum, exported
+			// fields) need not be the RSI period
+			a.Min.Period, a.Max.Period = c[1], c[1]
+		}
+		return a
 	}},
 	{Name: "momentum.WilliamsR", Sig: "hlc", NOut: 1, NCfg: 1, Make: func(c []int) any {
 		a := momentum.NewWilliamsR[F]()
@@ -524,15 +530,20 @@ func makeInd(e *IndEntity, cfg []int, scale int) *IndInstance {
 		scalePeriods(reflect.ValueOf(inst), scale, 0)
 	}
 	ii := &IndInstance{E: e, Inst: inst}
-	v := reflect.ValueOf(inst)
+	ii.declareIdle()
+	return ii
+}
+
+// declareIdle reads the warm-up the instance declares (IdlePeriod(), or the one its formula implies).
+func (ii *IndInstance) declareIdle() {
+	v := reflect.ValueOf(ii.Inst)
 	if m := v.MethodByName("IdlePeriod"); m.IsValid() {
 		ii.Idle = int(m.Call(nil)[0].Int())
-	} else if e.Implied != nil {
-		ii.Idle = e.Implied(inst)
+	} else if ii.E.Implied != nil {
+		ii.Idle = ii.E.Implied(ii.Inst)
 	} else {
-		panic("no warm-up known for " + e.Name)
+		panic("no warm-up known for " + ii.E.Name)
 	}
-	return ii
 }
 
 // Build returns the pipeline constructor for runPipe.
